@@ -175,9 +175,17 @@ func reduceAny(in any, dimensions []*dimension, dIndex int) (any, error) {
 	switch v := in.(type) {
 	case map[string]any:
 		for i := dIndex; i < len(dimensions); i++ {
-			r, err := reduce(v, dimensions, i)
-			if err != nil || !reflect.DeepEqual(r, v) {
+			r, reduced, err := reduce(v, dimensions, i)
+			if err != nil || reduced {
 				return r, err
+			}
+		}
+		// not keyed by any dimension: keep the map and reduce its children in place.
+		for k, el := range v {
+			var err error
+			v[k], err = reduceAny(el, dimensions, dIndex)
+			if err != nil {
+				return nil, err
 			}
 		}
 	case []any:
@@ -188,21 +196,21 @@ func reduceAny(in any, dimensions []*dimension, dIndex int) (any, error) {
 				return nil, err
 			}
 		}
-		// I'm returning an ANY here to do the map reduction in place
-		// but this is conflicting with the non-redusable case.
-		// return reduce(v, dimensions, dIndex)
 	}
 	return in, nil
 }
 
-func reduce(in map[string]any, dimensions []*dimension, dIndex int) (any, error) {
-	if dIndex+1 > len(dimensions) {
-		return in, nil
-	}
+// reduce follows the branch of `in` selected by dimensions[dIndex] when `in` is keyed by that
+// dimension (reduced == true); otherwise it returns `in` untouched (reduced == false).
+func reduce(in map[string]any, dimensions []*dimension, dIndex int) (out any, reduced bool, err error) {
 	dim := dimensions[dIndex]
 	// check if this a valid dim to reduce.
 	// if it is, grab the correct one and reduce the rest.
 	keys, hasDefault := keySet(in)
+	if len(keys) == 0 && !hasDefault {
+		// an empty map is just an empty map.
+		return in, false, nil
+	}
 
 	foundDimKey := ""
 	for k := range keys {
@@ -214,24 +222,19 @@ func reduce(in map[string]any, dimensions []*dimension, dIndex int) (any, error)
 		}
 	}
 	if len(keys) != 0 {
-		for k, v := range in {
-			var err error
-			in[k], err = reduceAny(v, dimensions, dIndex)
-			if err != nil {
-				return nil, err
-			}
-		}
 		// NOT reducable with this dim. need to try next,
-		return in, nil
+		return in, false, nil
 	}
-	// otherwise this is reducable.
+	// otherwise this is reducable; the selected branch may use every dimension again.
 	// case 1: we have the dim's key. Simply follow it.
 	if v, ok := in[foundDimKey]; ok {
-		return reduceAny(v, dimensions, dIndex+1)
+		out, err = reduceAny(v, dimensions, 0)
+		return out, true, err
 	}
 	// case 2: we have default
 	if hasDefault {
-		return reduceAny(in[defaultKey], dimensions, dIndex+1)
+		out, err = reduceAny(in[defaultKey], dimensions, 0)
+		return out, true, err
 	}
 
 	// case 3: we have no default, and no match...
@@ -240,7 +243,7 @@ func reduce(in map[string]any, dimensions []*dimension, dIndex int) (any, error)
 	// 2. These keys are meant to be part of a map... i.e. intentionally missing properties.
 	// ...going with #1.
 	keys, _ = keySet(in)
-	return nil, ErrFailedParsing.Msg(
+	return nil, true, ErrFailedParsing.Msg(
 		"broken dim key! %T dimensions identified around keys %s, but no `default` or `%s` value found.",
 		dim.defaultVal, keys.Slice(), dim.get())
 }
